@@ -706,10 +706,12 @@ bool Parser::parse_patch_header(Patch& patch, PatchHeaderInfo& header_info, int 
             throw std::runtime_error("Failure reading line from file parsing patch header");
     }
 
+    // NOTE: a git patch says so if it adds or removes a file. There a range of no lines by itself only tells
+    //       that nothing is left of the file (or was in it), which is still there (or was already).
     if (patch.operation == Operation::Change) {
-        if (hunk.new_file_range.start_line == 0)
+        if (hunk.new_file_range.start_line == 0 && (!is_git_patch || patch.new_file_path == "/dev/null"))
             patch.operation = Operation::Delete;
-        else if (hunk.old_file_range.start_line == 0)
+        else if (hunk.old_file_range.start_line == 0 && (!is_git_patch || patch.old_file_path == "/dev/null"))
             patch.operation = Operation::Add;
     }
 
